@@ -123,8 +123,7 @@ def materialise(ctx, variantbin, variant, bundles, seed, stats):
 
 def run_lint_jobs(ctx, lintbin, jobs, nproc):
     """Distribute jobs over nproc c16lint processes sharing one cache; returns id->result."""
-    cache = ctx.path("lintcache", "x")
-    cache = os.path.dirname(cache)
+    cache = os.environ.get("C16_DEVCACHE") or os.path.dirname(ctx.path("lintcache", "x"))
     # biggest first, round robin
     order = sorted(jobs, key=lambda j: -j.get("weight", 1))
     chunks = [[] for _ in range(nproc)]
@@ -256,6 +255,11 @@ def validate_job(ctx, job, out, files, acc):
             acc["exempt_line_directive"] += 1
             continue
         why = check_position(fi, pos)
+        if why and exempt:
+            # a //line directive in another file of the package may map positions into this
+            # file (adjusted line/column, raw offset): "remapped positions aside"
+            acc["exempt_line_directive"] += 1
+            continue
         if why:
             fails.append(Failure("pos", d["cat"], job, d, why="start: " + why))
         acc["pos_lines"].append(("pos", pos["file"], pos["off"], pos["line"], pos["col"]))
@@ -365,8 +369,8 @@ def new_acc():
 def explore(ctx):
     """development helper: run the corpus and print the failure landscape"""
     t0 = time.time()
-    lintbin = vlib.build_harness(ctx, "c16lint")
-    varbin = vlib.build_harness(ctx, "c16variant")
+    lintbin = os.environ.get("C16_LINTBIN") or vlib.build_harness(ctx, "c16lint")
+    varbin = os.environ.get("C16_VARBIN") or vlib.build_harness(ctx, "c16variant")
     print("built", time.time() - t0)
     units = list_units(vlib.REPO)
     bundles = plan_bundles(units)
